@@ -486,6 +486,7 @@ async fn make_handler() -> impl Service<(ServerEnd, Protocol, Option<std::net::S
 #[derive(Default)]
 struct Out {
     steps: u64,
+    sim_ms: u64,
     stuck: Option<String>,
     tape: Vec<u32>,
     stats: BTreeMap<&'static str, u64>,
@@ -568,6 +569,7 @@ async fn run_h1(bytes: Vec<u8>, cuts: Vec<u32>, tape: Tape) -> Out {
     let _ = t;
     out.out_bytes = ss.st.borrow().out.len();
     out.tape = tape.borrow().record.clone();
+    out.sim_ms = ex.now_ms();
     drop(ex);
     drop(handler);
     out
@@ -713,6 +715,7 @@ impl Rig for FzRig {
                 let o = run_sim(async move { cl::run_world(csc, tape, false).await });
                 let mut out = Out::default();
                 out.steps = o.steps;
+                out.sim_ms = o.sim_ms;
                 out.stuck = o.stuck.clone();
                 out.tape = o.tape.clone();
                 (bytes, out)
@@ -761,7 +764,7 @@ impl Rig for FzRig {
             stats,
             nontrivial: !sc.muts.is_empty(),
             states: vec![],
-            sim_ms: 0,
+            sim_ms: out.sim_ms,
             steps: out.steps,
             tape: out.tape.clone(),
             narrative: narr,
